@@ -11,7 +11,8 @@ VARIABLES calls, a1, a2, a3, a4
 vars == <<calls, a1, a2, a3, a4>>
 Menu == { <<"move_to", 1, 2>>, <<"move_to", -3, 0>>, <<"line_to", 4, 4>>, <<"line_to", 0, -5>>,
           <<"quad_to", 3, 1, 6, 2>>, <<"cubic_to", 1, 1, 2, 5, 7, 3>>, <<"close">>,
-          <<"rect", 1, 1, 4, 3>>, <<"rect", 2, 2, -3, -1>>, <<"rect", 0, 0, 0, 5>>, <<"rect", -4, 3, 2, -6>> }
+          <<"rect", 1, 1, 4, 3>>, <<"rect", 2, 2, -3, -1>>, <<"rect", 0, 0, 0, 5>>, <<"rect", -4, 3, 2, -6>>,
+          <<"arc", 6, 6, 4, <<1, 3>>, <<7, 2>> >>, <<"arc", 2, 2, 0, <<0, 1>>, <<-1, 1>> >> }
 Transforms == << [m |-> <<1, 0, 0, 1, 0, 0>>, mden |-> 1], [m |-> <<1, 0, 0, 1, 3, -2>>, mden |-> 1],
                  [m |-> <<2, 0, 0, 2, 1, 1>>, mden |-> 4], [m |-> <<0, 1, -1, 0, 5, 0>>, mden |-> 1],
                  [m |-> <<-1, 0, 0, 1, 0, 0>>, mden |-> 1], [m |-> <<1, 1, 0, 1, 0, 0>>, mden |-> 2],
